@@ -22,6 +22,10 @@ type c19Case struct {
 	Long   string `json:"long_pattern,omitempty"`       // run-length description of a long pattern, e.g. "1,50x0,1,45x0"
 	// ChildRO: the (nested) stack is read-only: Defrag of the parent leaves it exactly as it is
 	ChildRO bool `json:"nested_stack_read_only,omitempty"`
+	// Prior: this many values were pushed, and the stack defragmented once (nothing to do), before the
+	// pattern was pushed; Pol: an accept-everything push policy is installed (the pushes take that path)
+	Prior int  `json:"values_pushed_and_defragmented_before,omitempty"`
+	Pol   bool `json:"push_policy,omitempty"`
 }
 
 func (cs c19Case) pattern() string {
@@ -209,7 +213,19 @@ func c19Run(c *Ctx, cs c19Case, count bool) {
 	if cs.Fwd {
 		target.SetForwardIndices(true)
 	}
-	target.Push(vals...)
+	if cs.Pol {
+		target.SetPushPolicy(func(...any) error { return nil })
+	}
+	if cs.Prior > 0 {
+		var prior []any
+		for i := 0; i < cs.Prior; i++ {
+			prior = append(prior, fmt.Sprintf("q%d", i))
+		}
+		target.Push(prior...)
+		target.Defrag() // nothing to compact: whatever this call concludes is out of date after the next Push
+		vals = append(prior, vals...)
+	}
+	target.Push(vals[cs.Prior:]...)
 	if cs.PreErr {
 		target.SetErr(errCat)
 	}
@@ -397,20 +413,36 @@ func c19Cases(c *Ctx) []c19Case {
 					if (opt.neg || opt.fwd) && (lim != 0 || n > maxLen-2) {
 						continue
 					}
-					out = append(out, c19Case{n, mask, lim, opt.neg, opt.fwd, "top", "LIST", false, "", false})
+					out = append(out, c19Case{n, mask, lim, opt.neg, opt.fwd, "top", "LIST", false, "", false, 0, false})
 					if mask != (1<<n)-1 && !opt.neg && !opt.fwd && (lim == 0 || lim == 3) && n <= nestLen+2 {
-						out = append(out, c19Case{n, mask, lim, false, false, "top", "LIST", true, "", false})
+						out = append(out, c19Case{n, mask, lim, false, false, "top", "LIST", true, "", false, 0, false})
 					}
 				}
 				if n <= nestLen && (lim == 0 || lim == 3) {
 					for _, pl := range []string{"top-mutex", "top-decorated", "in-stack", "alias", "ptr-alias", "in-cond", "in-cond-only", "in-cond-alias", "deep", "in-stack-parent-options", "in-cond-nonesting-parent"} {
-						out = append(out, c19Case{n, mask, lim, false, false, pl, "AND", false, "", false})
+						out = append(out, c19Case{n, mask, lim, false, false, pl, "AND", false, "", false, 0, false})
 						if mask != (1<<n)-1 && n <= 4 && lim == 0 {
-							out = append(out, c19Case{n, mask, lim, false, false, pl, "AND", true, "", false})
+							out = append(out, c19Case{n, mask, lim, false, false, pl, "AND", true, "", false, 0, false})
 						}
 					}
 				}
 			}
+		}
+	}
+	// a second Defrag: values pushed and defragmented (nothing to do), then the pattern pushed - through
+	// the plain path and through a push policy - and defragmented again
+	for n := 1; n <= 5; n++ {
+		for mask := 0; mask < (1<<n)-1; mask++ {
+			for prior := 1; prior <= 2; prior++ {
+				for v := 0; v < 8; v++ {
+					out = append(out, c19Case{Len: n, Mask: mask, Place: "top", Kind: "LIST", Neg: v&1 != 0, Fwd: v&2 != 0, Pol: v&4 != 0, Prior: prior})
+				}
+			}
+		}
+	}
+	for _, long := range []string{"5x0,20x1", "2x1,5x0,9x1"} {
+		for v := 0; v < 8; v++ {
+			out = append(out, c19Case{Place: "top", Kind: "AND", Neg: v&1 != 0, Fwd: v&2 != 0, Pol: v&4 != 0, Prior: 3, Long: long})
 		}
 	}
 	// nested stacks with index options, an earlier error, or the read-only flag of their own
@@ -437,7 +469,9 @@ func c19Cases(c *Ctx) []c19Case {
 	// long patterns: nil runs of 50 and more with a scan limit above the default of 50, in every placement
 	for _, long := range []string{"1,50x0,1,45x0", "51x0,1", "1,55x0,1", "1,49x0,1,2x0,1", "2x1,52x0,3x1,1x0",
 		// stacks longer than a machine word has bits, with short runs only
-		"10x1,5x0,55x1", "63x1,5x0,2x1", "20x1,2x0,20x1,3x0,30x1", "64x1,1x0,1", "60x1,1x0,9x1", "33x1,1x0,33x1,1x0,33x1,1x0,33x1", "5x0,130x1"} {
+		"10x1,5x0,55x1", "63x1,5x0,2x1", "20x1,2x0,20x1,3x0,30x1", "64x1,1x0,1", "60x1,1x0,9x1", "33x1,1x0,33x1,1x0,33x1,1x0,33x1", "5x0,130x1",
+		// ... and longer than 256 / 512 / 1024 slices
+		"250x1,5x0,45x1", "5x0,300x1", "255x1,1x0,4x1", "500x1,5x0,30x1", "1020x1,5x0,10x1"} {
 		for _, lim := range []int{0, 60, 100} {
 			run := 0
 			for _, v := range longValues(long) {
@@ -453,7 +487,7 @@ func c19Cases(c *Ctx) []c19Case {
 				if pl == "top" {
 					kind = "LIST"
 				}
-				out = append(out, c19Case{0, 0, lim, false, false, pl, kind, false, long, false})
+				out = append(out, c19Case{0, 0, lim, false, false, pl, kind, false, long, false, 0, false})
 			}
 		}
 	}
